@@ -34,7 +34,7 @@
 (* re-check `ended`; F8 share greets a sink before a late upstream greeted. *)
 (* Repaired in the code and therefore in the model: F4 (merge disposes a    *)
 (* late greeter), F5 (combine stores before counting), F6 (take claims its  *)
-(* slot atomically), F9 (take is over when its source ends by itself).  file:line references are to the pinned commit; lines  *)
+(* slot atomically), F9 (take is over when its source ends by itself), F10 (concat!() of no member greets before it completes).  file:line references are to the pinned commit; lines  *)
 (* of merge.rs / take.rs / combine.rs moved by up to 12 with those commits. *)
 (***************************************************************************)
 EXTENDS Integers, Sequences, FiniteSets, TLC
@@ -854,8 +854,12 @@ MG9:
       if (m.t = "H") {
         sx := Len(st[to.n]) + 1;
         st[to.n] := Append(st[to.n], InitSt(to.n, m.tb));
-        goto CCNext;
+        if (Len(Ups(to.n)) = 0) { goto CC0; } else { goto CCNext; };
       } else { goto Ret; };
+    } else if (to.r = "ntb") {
+      \* the talkback handed out when there is no member (fix F10): only remembers a disposal
+      if (m.t \in {"E", "T"}) { st[to.n][to.s].gotpull := TRUE; };
+      goto Ret;
     } else if (to.r = "up") {
       if (m.t = "H") {
         \* concat.rs:178-197
@@ -906,6 +910,14 @@ CCNext:
       call Deliver("S", Ref(Ups(to.n)[st[to.n][sx].i + 1], "src", 0, 0), MsgH(Ref(to.n, "up", sx, 0)));
     };
 CC7:
+    goto Ret;
+CC0:
+    \* no member at all (fix F10, as in the JavaScript original): greet, then complete unless disposed
+    call Deliver("S", st[to.n][sx].sink, MsgH(Ref(to.n, "ntb", sx, 0)));
+CC0b:
+    \* (the flag `disposed` of that branch is kept in the otherwise unused field gotpull)
+    if (~st[to.n][sx].gotpull) { call Deliver("S", st[to.n][sx].sink, Msg("T")); };
+CC0c:
     goto Ret;
   }
   \* ==== combine ==============================================================================
@@ -2630,7 +2642,9 @@ DDisp(self) == /\ pc[self] = "DDisp"
                                                                                                                                                                     THEN /\ IF m[self].t = "H"
                                                                                                                                                                                THEN /\ sx' = [sx EXCEPT ![self] = Len(st[to[self].n]) + 1]
                                                                                                                                                                                     /\ st' = [st EXCEPT ![to[self].n] = Append(st[to[self].n], InitSt(to[self].n, m[self].tb))]
-                                                                                                                                                                                    /\ pc' = [pc EXCEPT ![self] = "CCNext"]
+                                                                                                                                                                                    /\ IF Len(Ups(to[self].n)) = 0
+                                                                                                                                                                                          THEN /\ pc' = [pc EXCEPT ![self] = "CC0"]
+                                                                                                                                                                                          ELSE /\ pc' = [pc EXCEPT ![self] = "CCNext"]
                                                                                                                                                                                ELSE /\ pc' = [pc EXCEPT ![self] = "Ret"]
                                                                                                                                                                                     /\ UNCHANGED << st, 
                                                                                                                                                                                                     sx >>
@@ -2645,116 +2659,15 @@ DDisp(self) == /\ pc[self] = "DDisp"
                                                                                                                                                                                          ch, 
                                                                                                                                                                                          lv, 
                                                                                                                                                                                          snap >>
-                                                                                                                                                                    ELSE /\ IF to[self].r = "up"
-                                                                                                                                                                               THEN /\ IF m[self].t = "H"
-                                                                                                                                                                                          THEN /\ st' = [st EXCEPT ![to[self].n][to[self].s].utb = m[self].tb]
-                                                                                                                                                                                               /\ pc' = [pc EXCEPT ![self] = "CC1"]
-                                                                                                                                                                                               /\ UNCHANGED << obs, 
-                                                                                                                                                                                                               panicked, 
-                                                                                                                                                                                                               stack, 
-                                                                                                                                                                                                               fr, 
-                                                                                                                                                                                                               to, 
-                                                                                                                                                                                                               m, 
-                                                                                                                                                                                                               lg, 
-                                                                                                                                                                                                               sx, 
-                                                                                                                                                                                                               jx, 
-                                                                                                                                                                                                               ch, 
-                                                                                                                                                                                                               lv, 
-                                                                                                                                                                                                               snap >>
-                                                                                                                                                                                          ELSE /\ IF m[self].t = "D"
-                                                                                                                                                                                                     THEN /\ /\ fr' = [fr EXCEPT ![self] = "S"]
-                                                                                                                                                                                                             /\ m' = [m EXCEPT ![self] = m[self]]
-                                                                                                                                                                                                             /\ stack' = [stack EXCEPT ![self] = << [ procedure |->  "Deliver",
-                                                                                                                                                                                                                                                      pc        |->  "CC3",
-                                                                                                                                                                                                                                                      lg        |->  lg[self],
-                                                                                                                                                                                                                                                      sx        |->  sx[self],
-                                                                                                                                                                                                                                                      jx        |->  jx[self],
-                                                                                                                                                                                                                                                      ch        |->  ch[self],
-                                                                                                                                                                                                                                                      lv        |->  lv[self],
-                                                                                                                                                                                                                                                      snap      |->  snap[self],
-                                                                                                                                                                                                                                                      fr        |->  fr[self],
-                                                                                                                                                                                                                                                      to        |->  to[self],
-                                                                                                                                                                                                                                                      m         |->  m[self] ] >>
-                                                                                                                                                                                                                                                  \o stack[self]]
-                                                                                                                                                                                                             /\ to' = [to EXCEPT ![self] = S(to[self]).sink]
-                                                                                                                                                                                                          /\ lg' = [lg EXCEPT ![self] = FALSE]
-                                                                                                                                                                                                          /\ sx' = [sx EXCEPT ![self] = 0]
-                                                                                                                                                                                                          /\ jx' = [jx EXCEPT ![self] = 0]
-                                                                                                                                                                                                          /\ ch' = [ch EXCEPT ![self] = ""]
-                                                                                                                                                                                                          /\ lv' = [lv EXCEPT ![self] = 0]
-                                                                                                                                                                                                          /\ snap' = [snap EXCEPT ![self] = <<>>]
-                                                                                                                                                                                                          /\ pc' = [pc EXCEPT ![self] = "DStart"]
-                                                                                                                                                                                                          /\ UNCHANGED << st, 
-                                                                                                                                                                                                                          obs, 
-                                                                                                                                                                                                                          panicked >>
-                                                                                                                                                                                                     ELSE /\ IF m[self].t = "P"
-                                                                                                                                                                                                                THEN /\ obs' = LogO(obs \o [q \in 1..OpenCount(obs, 1, 0) |-> RetEv(ThOf(self))],
-                                                                                                                                                                                                                                    Ev("panic", ThOf(self), "", "", "", 0))
-                                                                                                                                                                                                                     /\ panicked' = TRUE
-                                                                                                                                                                                                                     /\ pc' = [pc EXCEPT ![self] = "Halt"]
-                                                                                                                                                                                                                     /\ UNCHANGED << st, 
-                                                                                                                                                                                                                                     stack, 
-                                                                                                                                                                                                                                     fr, 
-                                                                                                                                                                                                                                     to, 
-                                                                                                                                                                                                                                     m, 
-                                                                                                                                                                                                                                     lg, 
-                                                                                                                                                                                                                                     sx, 
-                                                                                                                                                                                                                                     jx, 
-                                                                                                                                                                                                                                     ch, 
-                                                                                                                                                                                                                                     lv, 
-                                                                                                                                                                                                                                     snap >>
-                                                                                                                                                                                                                ELSE /\ IF m[self].t = "E"
-                                                                                                                                                                                                                           THEN /\ /\ fr' = [fr EXCEPT ![self] = "S"]
-                                                                                                                                                                                                                                   /\ m' = [m EXCEPT ![self] = m[self]]
-                                                                                                                                                                                                                                   /\ stack' = [stack EXCEPT ![self] = << [ procedure |->  "Deliver",
-                                                                                                                                                                                                                                                                            pc        |->  "CC4",
-                                                                                                                                                                                                                                                                            lg        |->  lg[self],
-                                                                                                                                                                                                                                                                            sx        |->  sx[self],
-                                                                                                                                                                                                                                                                            jx        |->  jx[self],
-                                                                                                                                                                                                                                                                            ch        |->  ch[self],
-                                                                                                                                                                                                                                                                            lv        |->  lv[self],
-                                                                                                                                                                                                                                                                            snap      |->  snap[self],
-                                                                                                                                                                                                                                                                            fr        |->  fr[self],
-                                                                                                                                                                                                                                                                            to        |->  to[self],
-                                                                                                                                                                                                                                                                            m         |->  m[self] ] >>
-                                                                                                                                                                                                                                                                        \o stack[self]]
-                                                                                                                                                                                                                                   /\ to' = [to EXCEPT ![self] = S(to[self]).sink]
-                                                                                                                                                                                                                                /\ lg' = [lg EXCEPT ![self] = FALSE]
-                                                                                                                                                                                                                                /\ sx' = [sx EXCEPT ![self] = 0]
-                                                                                                                                                                                                                                /\ jx' = [jx EXCEPT ![self] = 0]
-                                                                                                                                                                                                                                /\ ch' = [ch EXCEPT ![self] = ""]
-                                                                                                                                                                                                                                /\ lv' = [lv EXCEPT ![self] = 0]
-                                                                                                                                                                                                                                /\ snap' = [snap EXCEPT ![self] = <<>>]
-                                                                                                                                                                                                                                /\ pc' = [pc EXCEPT ![self] = "DStart"]
-                                                                                                                                                                                                                                /\ st' = st
-                                                                                                                                                                                                                           ELSE /\ st' = [st EXCEPT ![to[self].n][to[self].s].i = S(to[self]).i + 1]
-                                                                                                                                                                                                                                /\ sx' = [sx EXCEPT ![self] = to[self].s]
-                                                                                                                                                                                                                                /\ pc' = [pc EXCEPT ![self] = "CCNext"]
-                                                                                                                                                                                                                                /\ UNCHANGED << stack, 
-                                                                                                                                                                                                                                                fr, 
-                                                                                                                                                                                                                                                to, 
-                                                                                                                                                                                                                                                m, 
-                                                                                                                                                                                                                                                lg, 
-                                                                                                                                                                                                                                                jx, 
-                                                                                                                                                                                                                                                ch, 
-                                                                                                                                                                                                                                                lv, 
-                                                                                                                                                                                                                                                snap >>
-                                                                                                                                                                                                                     /\ UNCHANGED << obs, 
-                                                                                                                                                                                                                                     panicked >>
-                                                                                                                                                                               ELSE /\ IF m[self].t \in {"H", "D"}
-                                                                                                                                                                                          THEN /\ obs' = LogO(obs \o [q \in 1..OpenCount(obs, 1, 0) |-> RetEv(ThOf(self))],
-                                                                                                                                                                                                              Ev("panic", ThOf(self), "", "", "", 0))
-                                                                                                                                                                                               /\ panicked' = TRUE
-                                                                                                                                                                                               /\ pc' = [pc EXCEPT ![self] = "Halt"]
+                                                                                                                                                                    ELSE /\ IF to[self].r = "ntb"
+                                                                                                                                                                               THEN /\ IF m[self].t \in {"E", "T"}
+                                                                                                                                                                                          THEN /\ st' = [st EXCEPT ![to[self].n][to[self].s].gotpull = TRUE]
+                                                                                                                                                                                          ELSE /\ TRUE
                                                                                                                                                                                                /\ st' = st
-                                                                                                                                                                                          ELSE /\ IF m[self].t = "P"
-                                                                                                                                                                                                     THEN /\ st' = [st EXCEPT ![to[self].n][to[self].s].gotpull = TRUE]
-                                                                                                                                                                                                     ELSE /\ TRUE
-                                                                                                                                                                                                          /\ st' = st
-                                                                                                                                                                                               /\ pc' = [pc EXCEPT ![self] = "CC5"]
-                                                                                                                                                                                               /\ UNCHANGED << obs, 
-                                                                                                                                                                                                               panicked >>
-                                                                                                                                                                                    /\ UNCHANGED << stack, 
+                                                                                                                                                                                    /\ pc' = [pc EXCEPT ![self] = "Ret"]
+                                                                                                                                                                                    /\ UNCHANGED << obs, 
+                                                                                                                                                                                                    panicked, 
+                                                                                                                                                                                                    stack, 
                                                                                                                                                                                                     fr, 
                                                                                                                                                                                                     to, 
                                                                                                                                                                                                     m, 
@@ -2764,6 +2677,125 @@ DDisp(self) == /\ pc[self] = "DDisp"
                                                                                                                                                                                                     ch, 
                                                                                                                                                                                                     lv, 
                                                                                                                                                                                                     snap >>
+                                                                                                                                                                               ELSE /\ IF to[self].r = "up"
+                                                                                                                                                                                          THEN /\ IF m[self].t = "H"
+                                                                                                                                                                                                     THEN /\ st' = [st EXCEPT ![to[self].n][to[self].s].utb = m[self].tb]
+                                                                                                                                                                                                          /\ pc' = [pc EXCEPT ![self] = "CC1"]
+                                                                                                                                                                                                          /\ UNCHANGED << obs, 
+                                                                                                                                                                                                                          panicked, 
+                                                                                                                                                                                                                          stack, 
+                                                                                                                                                                                                                          fr, 
+                                                                                                                                                                                                                          to, 
+                                                                                                                                                                                                                          m, 
+                                                                                                                                                                                                                          lg, 
+                                                                                                                                                                                                                          sx, 
+                                                                                                                                                                                                                          jx, 
+                                                                                                                                                                                                                          ch, 
+                                                                                                                                                                                                                          lv, 
+                                                                                                                                                                                                                          snap >>
+                                                                                                                                                                                                     ELSE /\ IF m[self].t = "D"
+                                                                                                                                                                                                                THEN /\ /\ fr' = [fr EXCEPT ![self] = "S"]
+                                                                                                                                                                                                                        /\ m' = [m EXCEPT ![self] = m[self]]
+                                                                                                                                                                                                                        /\ stack' = [stack EXCEPT ![self] = << [ procedure |->  "Deliver",
+                                                                                                                                                                                                                                                                 pc        |->  "CC3",
+                                                                                                                                                                                                                                                                 lg        |->  lg[self],
+                                                                                                                                                                                                                                                                 sx        |->  sx[self],
+                                                                                                                                                                                                                                                                 jx        |->  jx[self],
+                                                                                                                                                                                                                                                                 ch        |->  ch[self],
+                                                                                                                                                                                                                                                                 lv        |->  lv[self],
+                                                                                                                                                                                                                                                                 snap      |->  snap[self],
+                                                                                                                                                                                                                                                                 fr        |->  fr[self],
+                                                                                                                                                                                                                                                                 to        |->  to[self],
+                                                                                                                                                                                                                                                                 m         |->  m[self] ] >>
+                                                                                                                                                                                                                                                             \o stack[self]]
+                                                                                                                                                                                                                        /\ to' = [to EXCEPT ![self] = S(to[self]).sink]
+                                                                                                                                                                                                                     /\ lg' = [lg EXCEPT ![self] = FALSE]
+                                                                                                                                                                                                                     /\ sx' = [sx EXCEPT ![self] = 0]
+                                                                                                                                                                                                                     /\ jx' = [jx EXCEPT ![self] = 0]
+                                                                                                                                                                                                                     /\ ch' = [ch EXCEPT ![self] = ""]
+                                                                                                                                                                                                                     /\ lv' = [lv EXCEPT ![self] = 0]
+                                                                                                                                                                                                                     /\ snap' = [snap EXCEPT ![self] = <<>>]
+                                                                                                                                                                                                                     /\ pc' = [pc EXCEPT ![self] = "DStart"]
+                                                                                                                                                                                                                     /\ UNCHANGED << st, 
+                                                                                                                                                                                                                                     obs, 
+                                                                                                                                                                                                                                     panicked >>
+                                                                                                                                                                                                                ELSE /\ IF m[self].t = "P"
+                                                                                                                                                                                                                           THEN /\ obs' = LogO(obs \o [q \in 1..OpenCount(obs, 1, 0) |-> RetEv(ThOf(self))],
+                                                                                                                                                                                                                                               Ev("panic", ThOf(self), "", "", "", 0))
+                                                                                                                                                                                                                                /\ panicked' = TRUE
+                                                                                                                                                                                                                                /\ pc' = [pc EXCEPT ![self] = "Halt"]
+                                                                                                                                                                                                                                /\ UNCHANGED << st, 
+                                                                                                                                                                                                                                                stack, 
+                                                                                                                                                                                                                                                fr, 
+                                                                                                                                                                                                                                                to, 
+                                                                                                                                                                                                                                                m, 
+                                                                                                                                                                                                                                                lg, 
+                                                                                                                                                                                                                                                sx, 
+                                                                                                                                                                                                                                                jx, 
+                                                                                                                                                                                                                                                ch, 
+                                                                                                                                                                                                                                                lv, 
+                                                                                                                                                                                                                                                snap >>
+                                                                                                                                                                                                                           ELSE /\ IF m[self].t = "E"
+                                                                                                                                                                                                                                      THEN /\ /\ fr' = [fr EXCEPT ![self] = "S"]
+                                                                                                                                                                                                                                              /\ m' = [m EXCEPT ![self] = m[self]]
+                                                                                                                                                                                                                                              /\ stack' = [stack EXCEPT ![self] = << [ procedure |->  "Deliver",
+                                                                                                                                                                                                                                                                                       pc        |->  "CC4",
+                                                                                                                                                                                                                                                                                       lg        |->  lg[self],
+                                                                                                                                                                                                                                                                                       sx        |->  sx[self],
+                                                                                                                                                                                                                                                                                       jx        |->  jx[self],
+                                                                                                                                                                                                                                                                                       ch        |->  ch[self],
+                                                                                                                                                                                                                                                                                       lv        |->  lv[self],
+                                                                                                                                                                                                                                                                                       snap      |->  snap[self],
+                                                                                                                                                                                                                                                                                       fr        |->  fr[self],
+                                                                                                                                                                                                                                                                                       to        |->  to[self],
+                                                                                                                                                                                                                                                                                       m         |->  m[self] ] >>
+                                                                                                                                                                                                                                                                                   \o stack[self]]
+                                                                                                                                                                                                                                              /\ to' = [to EXCEPT ![self] = S(to[self]).sink]
+                                                                                                                                                                                                                                           /\ lg' = [lg EXCEPT ![self] = FALSE]
+                                                                                                                                                                                                                                           /\ sx' = [sx EXCEPT ![self] = 0]
+                                                                                                                                                                                                                                           /\ jx' = [jx EXCEPT ![self] = 0]
+                                                                                                                                                                                                                                           /\ ch' = [ch EXCEPT ![self] = ""]
+                                                                                                                                                                                                                                           /\ lv' = [lv EXCEPT ![self] = 0]
+                                                                                                                                                                                                                                           /\ snap' = [snap EXCEPT ![self] = <<>>]
+                                                                                                                                                                                                                                           /\ pc' = [pc EXCEPT ![self] = "DStart"]
+                                                                                                                                                                                                                                           /\ st' = st
+                                                                                                                                                                                                                                      ELSE /\ st' = [st EXCEPT ![to[self].n][to[self].s].i = S(to[self]).i + 1]
+                                                                                                                                                                                                                                           /\ sx' = [sx EXCEPT ![self] = to[self].s]
+                                                                                                                                                                                                                                           /\ pc' = [pc EXCEPT ![self] = "CCNext"]
+                                                                                                                                                                                                                                           /\ UNCHANGED << stack, 
+                                                                                                                                                                                                                                                           fr, 
+                                                                                                                                                                                                                                                           to, 
+                                                                                                                                                                                                                                                           m, 
+                                                                                                                                                                                                                                                           lg, 
+                                                                                                                                                                                                                                                           jx, 
+                                                                                                                                                                                                                                                           ch, 
+                                                                                                                                                                                                                                                           lv, 
+                                                                                                                                                                                                                                                           snap >>
+                                                                                                                                                                                                                                /\ UNCHANGED << obs, 
+                                                                                                                                                                                                                                                panicked >>
+                                                                                                                                                                                          ELSE /\ IF m[self].t \in {"H", "D"}
+                                                                                                                                                                                                     THEN /\ obs' = LogO(obs \o [q \in 1..OpenCount(obs, 1, 0) |-> RetEv(ThOf(self))],
+                                                                                                                                                                                                                         Ev("panic", ThOf(self), "", "", "", 0))
+                                                                                                                                                                                                          /\ panicked' = TRUE
+                                                                                                                                                                                                          /\ pc' = [pc EXCEPT ![self] = "Halt"]
+                                                                                                                                                                                                          /\ st' = st
+                                                                                                                                                                                                     ELSE /\ IF m[self].t = "P"
+                                                                                                                                                                                                                THEN /\ st' = [st EXCEPT ![to[self].n][to[self].s].gotpull = TRUE]
+                                                                                                                                                                                                                ELSE /\ TRUE
+                                                                                                                                                                                                                     /\ st' = st
+                                                                                                                                                                                                          /\ pc' = [pc EXCEPT ![self] = "CC5"]
+                                                                                                                                                                                                          /\ UNCHANGED << obs, 
+                                                                                                                                                                                                                          panicked >>
+                                                                                                                                                                                               /\ UNCHANGED << stack, 
+                                                                                                                                                                                                               fr, 
+                                                                                                                                                                                                               to, 
+                                                                                                                                                                                                               m, 
+                                                                                                                                                                                                               lg, 
+                                                                                                                                                                                                               sx, 
+                                                                                                                                                                                                               jx, 
+                                                                                                                                                                                                               ch, 
+                                                                                                                                                                                                               lv, 
+                                                                                                                                                                                                               snap >>
                                                                                                                                                               /\ UNCHANGED << nd, 
                                                                                                                                                                               tasks, 
                                                                                                                                                                               script >>
@@ -3360,7 +3392,7 @@ DDisp(self) == /\ pc[self] = "DDisp"
                                                                                                                                                                                                                                      sx, 
                                                                                                                                                                                                                                      ch >>
                                                                                                                                                                                                      ELSE /\ Assert(FALSE, 
-                                                                                                                                                                                                                    "Failure of assertion at line 1219, column 5.")
+                                                                                                                                                                                                                    "Failure of assertion at line 1231, column 5.")
                                                                                                                                                                                                           /\ pc' = [pc EXCEPT ![self] = "Ret"]
                                                                                                                                                                                                           /\ UNCHANGED << st, 
                                                                                                                                                                                                                           tasks, 
@@ -5090,6 +5122,71 @@ CC7(self) == /\ pc[self] = "CC7"
                              m, lg, sx, jx, ch, lv, snap, ka, ca, gx, ex, nx, 
                              fx, bx, bc, tx, ta, tc, ft, act, sj, tk >>
 
+CC0(self) == /\ pc[self] = "CC0"
+             /\ /\ fr' = [fr EXCEPT ![self] = "S"]
+                /\ m' = [m EXCEPT ![self] = MsgH(Ref(to[self].n, "ntb", sx[self], 0))]
+                /\ stack' = [stack EXCEPT ![self] = << [ procedure |->  "Deliver",
+                                                         pc        |->  "CC0b",
+                                                         lg        |->  lg[self],
+                                                         sx        |->  sx[self],
+                                                         jx        |->  jx[self],
+                                                         ch        |->  ch[self],
+                                                         lv        |->  lv[self],
+                                                         snap      |->  snap[self],
+                                                         fr        |->  fr[self],
+                                                         to        |->  to[self],
+                                                         m         |->  m[self] ] >>
+                                                     \o stack[self]]
+                /\ to' = [to EXCEPT ![self] = st[to[self].n][sx[self]].sink]
+             /\ lg' = [lg EXCEPT ![self] = FALSE]
+             /\ sx' = [sx EXCEPT ![self] = 0]
+             /\ jx' = [jx EXCEPT ![self] = 0]
+             /\ ch' = [ch EXCEPT ![self] = ""]
+             /\ lv' = [lv EXCEPT ![self] = 0]
+             /\ snap' = [snap EXCEPT ![self] = <<>>]
+             /\ pc' = [pc EXCEPT ![self] = "DStart"]
+             /\ UNCHANGED << ci, st, nd, sk, pi, fi, tasks, now, obs, script, 
+                             ntop, panicked, started, mon, done, ka, ca, gx, 
+                             ex, nx, fx, bx, bc, tx, ta, tc, ft, act, sj, tk >>
+
+CC0b(self) == /\ pc[self] = "CC0b"
+              /\ IF ~st[to[self].n][sx[self]].gotpull
+                    THEN /\ /\ fr' = [fr EXCEPT ![self] = "S"]
+                            /\ m' = [m EXCEPT ![self] = Msg("T")]
+                            /\ stack' = [stack EXCEPT ![self] = << [ procedure |->  "Deliver",
+                                                                     pc        |->  "CC0c",
+                                                                     lg        |->  lg[self],
+                                                                     sx        |->  sx[self],
+                                                                     jx        |->  jx[self],
+                                                                     ch        |->  ch[self],
+                                                                     lv        |->  lv[self],
+                                                                     snap      |->  snap[self],
+                                                                     fr        |->  fr[self],
+                                                                     to        |->  to[self],
+                                                                     m         |->  m[self] ] >>
+                                                                 \o stack[self]]
+                            /\ to' = [to EXCEPT ![self] = st[to[self].n][sx[self]].sink]
+                         /\ lg' = [lg EXCEPT ![self] = FALSE]
+                         /\ sx' = [sx EXCEPT ![self] = 0]
+                         /\ jx' = [jx EXCEPT ![self] = 0]
+                         /\ ch' = [ch EXCEPT ![self] = ""]
+                         /\ lv' = [lv EXCEPT ![self] = 0]
+                         /\ snap' = [snap EXCEPT ![self] = <<>>]
+                         /\ pc' = [pc EXCEPT ![self] = "DStart"]
+                    ELSE /\ pc' = [pc EXCEPT ![self] = "CC0c"]
+                         /\ UNCHANGED << stack, fr, to, m, lg, sx, jx, ch, lv, 
+                                         snap >>
+              /\ UNCHANGED << ci, st, nd, sk, pi, fi, tasks, now, obs, script, 
+                              ntop, panicked, started, mon, done, ka, ca, gx, 
+                              ex, nx, fx, bx, bc, tx, ta, tc, ft, act, sj, tk >>
+
+CC0c(self) == /\ pc[self] = "CC0c"
+              /\ pc' = [pc EXCEPT ![self] = "Ret"]
+              /\ UNCHANGED << ci, st, nd, sk, pi, fi, tasks, now, obs, script, 
+                              ntop, panicked, started, mon, done, stack, fr, 
+                              to, m, lg, sx, jx, ch, lv, snap, ka, ca, gx, ex, 
+                              nx, fx, bx, bc, tx, ta, tc, ft, act, sj, tk >>
+
 CC1(self) == /\ pc[self] = "CC1"
              /\ IF S(to[self]).i = 0
                    THEN /\ /\ fr' = [fr EXCEPT ![self] = "S"]
@@ -6181,25 +6278,25 @@ Deliver(self) == DStart(self) \/ DDisp(self) \/ K1(self) \/ K1a(self)
                     \/ MG5(self) \/ mg_sib_term(self) \/ mg_err(self)
                     \/ MG6(self) \/ mg_tb_clr(self) \/ mg_end_fa(self)
                     \/ mg_term(self) \/ MG7(self) \/ mg_tk_ended_st(self)
-                    \/ CCNext(self) \/ CC7(self) \/ CC1(self) \/ CC2(self)
-                    \/ CC3(self) \/ CC4(self) \/ CC5(self) \/ CC6(self)
-                    \/ CB1(self) \/ CB2(self) \/ cb_tb_st(self)
-                    \/ cb_start_fs(self) \/ cb_greet(self) \/ CB3(self)
-                    \/ cb_vals_ld(self) \/ cb_rcu_ld(self)
-                    \/ cb_rcu_cas(self) \/ cb_ndata(self)
-                    \/ cb_ndata_fs(self) \/ cb_ndata_ld(self)
-                    \/ cb_emit(self) \/ cb_emit_ld(self) \/ cb_data(self)
-                    \/ CB4(self) \/ cb_end_fs(self) \/ cb_term(self)
-                    \/ CB5(self) \/ CB6(self) \/ CB7(self) \/ FL1(self)
-                    \/ FL2(self) \/ FL3(self) \/ FL4(self) \/ FL5a(self)
-                    \/ FL5(self) \/ FL6(self) \/ FL7(self) \/ FL8(self)
-                    \/ FL9(self) \/ FL10(self) \/ FL11(self) \/ FL12(self)
-                    \/ FL13(self) \/ FL14(self) \/ FL16(self) \/ FL15(self)
-                    \/ FL17(self) \/ FL18(self) \/ FL19(self) \/ SH1(self)
-                    \/ SH2(self) \/ SH3(self) \/ SH4(self) \/ SH5(self)
-                    \/ SH6(self) \/ SH7(self) \/ SH8(self) \/ SH9(self)
-                    \/ SH10(self) \/ IV1(self) \/ IV2(self) \/ Ret(self)
-                    \/ Halt(self)
+                    \/ CCNext(self) \/ CC7(self) \/ CC0(self) \/ CC0b(self)
+                    \/ CC0c(self) \/ CC1(self) \/ CC2(self) \/ CC3(self)
+                    \/ CC4(self) \/ CC5(self) \/ CC6(self) \/ CB1(self)
+                    \/ CB2(self) \/ cb_tb_st(self) \/ cb_start_fs(self)
+                    \/ cb_greet(self) \/ CB3(self) \/ cb_vals_ld(self)
+                    \/ cb_rcu_ld(self) \/ cb_rcu_cas(self)
+                    \/ cb_ndata(self) \/ cb_ndata_fs(self)
+                    \/ cb_ndata_ld(self) \/ cb_emit(self)
+                    \/ cb_emit_ld(self) \/ cb_data(self) \/ CB4(self)
+                    \/ cb_end_fs(self) \/ cb_term(self) \/ CB5(self)
+                    \/ CB6(self) \/ CB7(self) \/ FL1(self) \/ FL2(self)
+                    \/ FL3(self) \/ FL4(self) \/ FL5a(self) \/ FL5(self)
+                    \/ FL6(self) \/ FL7(self) \/ FL8(self) \/ FL9(self)
+                    \/ FL10(self) \/ FL11(self) \/ FL12(self) \/ FL13(self)
+                    \/ FL14(self) \/ FL16(self) \/ FL15(self) \/ FL17(self)
+                    \/ FL18(self) \/ FL19(self) \/ SH1(self) \/ SH2(self)
+                    \/ SH3(self) \/ SH4(self) \/ SH5(self) \/ SH6(self)
+                    \/ SH7(self) \/ SH8(self) \/ SH9(self) \/ SH10(self)
+                    \/ IV1(self) \/ IV2(self) \/ Ret(self) \/ Halt(self)
 
 SA0(self) == /\ pc[self] = "SA0"
              /\ IF ca[self] = "pull"
